@@ -21,9 +21,9 @@ from fractions import Fraction
 META = {
     "id": "C16",
     "level": "model_checking",
-    "technique": "TLA+ spec Decoupling: published decoupling constants + logarithmic coefficients derived in the spec from RG invariance (Picard solution in L over truncated polynomials in (a, L), literature beta/gamma_m from Coeffs); TLC proves the derivation equal to the published logarithms for POLE and MSBAR, nl 3-5, and refutes 3 altered RG equations; the tables of eko.couplings are recovered exactly and judged cell by cell by the TLC trace spec DecouplingTrace, together with continuity and the composition-inverse law; decoupling steps of real Couplings.a queries (quark index of the ratio, table direction, nf, per-patch runs) validated against Atlas!Path by CouplingStepsTrace",
+    "technique": "TLA+ spec Decoupling: published decoupling constants + logarithmic coefficients derived in the spec from RG invariance (Picard solution in L over truncated polynomials in (a, L), literature beta/gamma_m from Coeffs); TLC proves the derivation equal to the published logarithms for POLE and MSBAR, nl 3-5, and refutes 3 altered RG equations; the tables of eko.couplings are recovered exactly and judged cell by cell by the TLC trace spec DecouplingTrace, together with continuity and the composition-inverse law; values of real Couplings.a queries validated by CouplingStepsTrace against the composition of the steps TLC derives from Atlas!Path (per-patch runs and decoupling steps: quark, direction, nl), evaluated with the library's own primitives; the way the implementation organises its internal calls is recorded at conformance grade only",
     "text": "For POLE and MSBAR and nl = 3,4,5 the 4x4 tables returned by compute_matching_coeffs_up and compute_matching_coeffs_down are recovered as exact rationals / printed decimals. TLC requires: constants c20, c30 equal to the published values; c10 = 0 and an empty a^1 row (unit ratio at L = 0 for LO and NLO); every logarithmic coefficient c11, c21, c22, c31, c32, c33 equal to the value that renormalisation-group invariance dictates, derived in the spec from beta^(nl), beta^(nl+1) and, for MSBAR, gamma_m^(nl+1); down(up(a)) = up(down(a)) = a as polynomials in (a, L) through every order 1-4.",
-    "note": "MSBAR: L = ln(mu^2/m(mu)^2) with the running mass of the (nl+1)-flavour theory, the convention under which the code's c20 = -22/9 and c21 = 22/3 are the published ones. Step structure (mode S): for random matching scales, reference points in ANY patch (also outside their natural one or exactly on a matching scale) and any target, the real Couplings.a is observed through recording wrappers (which quark's matching ratio it reads, which coefficient table up/down with which nf, which per-patch solutions it requests) and TLC (CouplingStepsTrace) compares with Atlas!Path: the coupling depends only on the path dictated by the matching scales. History independence of the same object is C17",
+    "note": "MSBAR: L = ln(mu^2/m(mu)^2) with the running mass of the (nl+1)-flavour theory, the convention under which the code's c20 = -22/9 and c21 = 22/3 are the published ones. Step structure (mode S): for random matching scales, reference points in ANY patch (also outside their natural one or exactly on a matching scale) and any target, TLC (CouplingStepsTrace, PlanInv) derives from Atlas!Path the list of steps the query requires; the harness composes exactly these steps with Couplings.compute of a fresh object and the coefficient tables judged above, and TLC requires the value returned by the real Couplings.a to equal that composition (relative difference <= 1e-12): the coupling depends only on the path dictated by the matching scales. At LO the decoupling factor is 1, so a wrong table is unobservable there (and harmless). Recording wrappers (which ratio is read, which table is requested, which per-patch solutions are computed) are kept as conformance diagnostics: a refactor that hoists or caches these calls is not a violation. History independence of the same object is C17",
     "design_ref": "4.10, 5 C16",
     "rule": "instance = (scheme, nl); 16 cells of the upward table + inverse law per instance; all non-trivial",
 }
@@ -132,21 +132,50 @@ def run(chk):
         srecs = pool.map(cpl.steps_instance, seeds, chunksize=16)
     for sr in srecs:
         chk.count(1, (tuple(sr["ms"]), tuple(sr["ref"]), tuple(sr["target"])), nontrivial=len(sr["dec"]) >= 1)
-    chk.sample(next(x for x in srecs if len(x["dec"]) >= 2))
-    rs = chk.tlc("CouplingStepsTrace", "CouplingStepsTrace.cfg", trace=srecs, workers=1, label="decoupling steps of real queries vs Atlas path")
+    nums = [sr.pop("_num") for sr in srecs]
+    # the steps the path dictated by the matching scales requires, from the specification
+    rp = chk.tlc("CouplingStepsTrace", "CouplingStepsPlan.cfg", trace=srecs, workers=1, label="steps required by Atlas!Path for every query (plan)")
+    if rp.violated or not rp.completed:
+        raise MachineryError(f"CouplingStepsTrace plan not produced: {rp.out[-1500:]}")
+    plans = {t[1] - 1: t[2] for t in rp.printed("PLAN")}
+    if len(plans) != len(srecs):
+        raise MachineryError(f"plan not read: {len(plans)} of {len(srecs)}")
+    worst = 0.0
+    for k, (sr, num) in enumerate(zip(srecs, nums)):
+        if num["val"] is None:
+            continue
+        exp = cpl.steps_expected(num, plans[k])
+        rel = max(abs(e - v) / max(abs(v), 1e-300) for e, v in zip(exp, num["val"]))
+        sr["val"] = "eq" if rel <= 1e-12 else "neq"
+        sr["_rel"] = rel
+        if rel <= 1e-12:
+            worst = max(worst, rel)
+    chk.note("value_clause", {"tolerance": 1e-12, "largest accepted relative difference": worst,
+                              "queries with >= 2 decoupling steps": sum(1 for x in plans.values() if sum(1 for s in x if s["k"] == "dec") >= 2)})
+    rels = [sr.pop("_rel", None) for sr in srecs]
+    chk.sample(next((x for k, x in enumerate(srecs) if sum(1 for s in plans[k] if s["k"] == "dec") >= 2), srecs[0]))
+    rs = chk.tlc("CouplingStepsTrace", "CouplingStepsTrace.cfg", trace=srecs, workers=1, label="values of real queries vs composition along Atlas!Path")
     if rs.violated or not rs.completed:
         raise MachineryError(f"CouplingStepsTrace not accepted: {rs.out[-1500:]}")
     chk.cov["traces_validated_against_impl"] += len(srecs)
     seen = set()
     for t in rs.printed("BAD"):
         sr = srecs[t[1] - 1]
-        if t[2] in seen:
+        fp = f"{t[2]} order={sr['order']}" if "value" in t[2] else t[2]
+        if fp in seen:
             continue
-        seen.add(t[2])
-        chk.violation(t[2], f"{t[2]}: matching scales {sr['ms']} reference {sr['ref']} target {sr['target']} order {sr['order']} {sr['scheme']}: steps {sr['dec']} runs {sr['runs']}", sr)
+        seen.add(fp)
+        chk.violation(fp, f"{t[2]}: matching scales {sr['ms']} reference {sr['ref']} target {sr['target']} order {sr['order']} {sr['scheme']}: "
+                          f"relative difference {rels[t[1] - 1]} from the composition of {plans[t[1] - 1]}", sr)
+    conf = {}
+    for t in rs.printed("CONF"):
+        conf[t[2]] = conf.get(t[2], 0) + 1
+    chk.note("conformance_of_internal_calls", conf)
+    for c, nmb in conf.items():
+        chk.diag(f"{c}: {nmb} queries organise their internal calls differently from the specification's step list (values agree unless reported above)")
     import copy as _copy
-    g = _copy.deepcopy(next(x for x in srecs if len(x["dec"]) >= 1))
-    g["dec"][0]["quark"] = (g["dec"][0]["quark"] + 1) % 3
+    g = _copy.deepcopy(next(x for x in srecs if x["val"] == "eq"))
+    g["val"] = "neq"
     rb = chk.tlc("CouplingStepsTrace", "CouplingStepsTrace.cfg", trace=[g], workers=1, label="corrupted step record (must be rejected)")
     if not [t for t in rb.printed("BAD") if t[2].startswith("C16:")]:
         raise MachineryError("binding demonstration (steps) failed")
